@@ -46,6 +46,8 @@ var handPrograms = []string{
 	"l = [t(1, 1)] + [t(2, 2)]\nl += [t(3, 3)]\na, b, c = l\nt(4, (a, b, c))\n",
 	"t(1, 1)\n",
 	"x = 1\n",
+	"t(1, 0)\nload('work:3', 'a')\nt(2, a)\nx = [t(3, i) for i in range(2)]\n",
+	"load('work:2', 'a')\nload('work:1', b = 'a')\nt(1, a + b)\n",
 }
 
 var nonTerminating = []string{
@@ -159,6 +161,21 @@ func execute(src string, cfg runCfg) (out runOut) {
 				wg.Wait()
 			}
 		}
+	}
+	// load("work:K", ...) executes, on the SAME thread, a module with K
+	// statements (each calling the probe): the steps of a loaded module count
+	// against the loading thread's limit like any other
+	th.Load = func(th *starlark.Thread, module string) (starlark.StringDict, error) {
+		var k int
+		if _, err := fmt.Sscanf(module, "work:%d", &k); err != nil {
+			return nil, fmt.Errorf("no such module %q", module)
+		}
+		var sb strings.Builder
+		for i := 0; i < k; i++ {
+			fmt.Fprintf(&sb, "w%d = t(100 + %d, %d)\n", i, i, i)
+		}
+		sb.WriteString("a = 1\n")
+		return starlark.ExecFileOptions(allOpts, th, module, sb.String(), pre)
 	}
 	_, err = p.Init(th, pre)
 	out.steps = th.ExecutionSteps()
@@ -350,6 +367,7 @@ var growthFamilies = []struct{ name, tmpl string }{
 	{"break-continue-loop", "for i in range(%d):\n    if i < 0:\n        continue\n    x = i\n"},
 	{"nested-for", "for i in range(%d):\n    for j in (1, 2, 3):\n        pass\n"},
 	{"string-building", "s = ''\nfor i in range(%d):\n    s += 'a'\n"},
+	{"statements-of-a-module-loaded-on-the-same-thread", "load('work:%d', 'a')\nx = a\n"},
 	{"star-args-call", "def g(*a):\n    return a\nfor i in range(%d):\n    g(*[i])\n"},
 }
 
@@ -499,6 +517,55 @@ func stateMachine(c *fw.Ctx, st *fw.Stats, report func(k kase, what string)) {
 	if err != nil {
 		fw.Fatal("c07 state machine program: %v", err)
 	}
+	// measure: steps a runner takes on a fresh, unlimited thread
+	measure := func(run func(th *starlark.Thread) error) int {
+		th := &starlark.Thread{Name: "measure"}
+		if err := run(th); err != nil {
+			fw.Fatal("c07 state machine: entry point fails on a fresh thread: %v", err)
+		}
+		return int(th.ExecutionSteps())
+	}
+	// execVia: one execution through some entry point of the API; S is its cost
+	execVia := func(name string, run func(th *starlark.Thread) error) op {
+		S := measure(run)
+		return op{name, func(th *starlark.Thread, m *smModel) string {
+			err := run(th)
+			wantErr := ""
+			switch {
+			case m.reason != "":
+				wantErr = m.reason
+				if m.remain > 0 {
+					m.remain--
+				}
+			case m.remain >= 0 && m.remain <= S:
+				wantErr = "too many steps"
+				m.reason = wantErr
+				m.remain = 0
+			default:
+				if m.remain > 0 {
+					m.remain -= S
+				}
+			}
+			got := ""
+			if err != nil {
+				got = err.Error()
+			}
+			if wantErr == "" && err != nil {
+				return fmt.Sprintf("%s: unexpected error %q", name, got)
+			}
+			if wantErr != "" && !isCancel(got, wantErr) {
+				return fmt.Sprintf("%s: error %q, model expects cancellation %q", name, got, wantErr)
+			}
+			if th.CallStackDepth() != 0 {
+				return name + ": call stack not restored"
+			}
+			return ""
+		}}
+	}
+	fnGlobals, err := starlark.ExecFileOptions(allOpts, &starlark.Thread{}, "fn.star", "def f(v):\n    return [v, v + 1]\n", nil)
+	if err != nil {
+		fw.Fatal("c07 state machine function: %v", err)
+	}
 	execOp := func(name string, pr *starlark.Program, env starlark.StringDict, self bool) op {
 		return op{name, func(th *starlark.Thread, m *smModel) string {
 			before := th.ExecutionSteps()
@@ -572,6 +639,26 @@ func stateMachine(c *fw.Ctx, st *fw.Stats, report func(k kase, what string)) {
 		{"Uncancel", func(th *starlark.Thread, m *smModel) string { th.Uncancel(); m.reason = ""; return "" }},
 		execOp("Exec(short)", p, pre, false),
 		execOp("Exec(self-cancelling)", pc, selfCancel, true),
+		// the other entry points of the API: cancellation and limits are properties of the thread
+		execVia("ExecFile(source)", func(th *starlark.Thread) error {
+			_, err := starlark.ExecFileOptions(allOpts, th, "e.star", src, nil)
+			return err
+		}),
+		execVia("Eval(expression)", func(th *starlark.Thread) error {
+			_, err := starlark.EvalOptions(allOpts, th, "e.star", "[1 + 2, 3]", nil)
+			return err
+		}),
+		execVia("ExecREPLChunk", func(th *starlark.Thread) error {
+			f, err := allOpts.Parse("r.star", "z = 1 + 2\n", 0)
+			if err != nil {
+				return err
+			}
+			return starlark.ExecREPLChunk(f, th, starlark.StringDict{})
+		}),
+		execVia("Call(function)", func(th *starlark.Thread) error {
+			_, err := starlark.Call(th, fnGlobals["f"], starlark.Tuple{starlark.MakeInt(1)}, nil)
+			return err
+		}),
 		{"SetMax(steps+3)", func(th *starlark.Thread, m *smModel) string {
 			th.SetMaxExecutionSteps(th.ExecutionSteps() + 3)
 			m.remain = 2 // instruction k runs iff Steps(after ++) < max
